@@ -354,3 +354,11 @@ def parse_state(text: str) -> dict:
             continue
         out[m.group(1)] = parse_tla_value(m.group(2))
     return out
+
+
+_RE_SIMACT = re.compile(r"^\\\* <(\w+) line ", re.M)
+
+
+def parse_sim_actions(path: Path) -> list[str]:
+    """action names of one `-simulate file=` behaviour (first entry is the initial predicate)"""
+    return _RE_SIMACT.findall(Path(path).read_text())
